@@ -304,6 +304,8 @@ def gen_history(rng, length, start=None):
     for _ in range(length):
         r = rng.random()
         op = gen_valid(rng, sh) if r < 0.6 else gen_wild(rng, sh) if r < 0.85 else gen_illegal(rng, sh)
+        if op[0] in ("add_blackbox", "add_subcircuit") and op[-1]:
+            op[-1] = [[k, v] for k, v in {k: v for k, v in op[-1]}.items()]     # a dict has each key once
         ops.append(op)
         sh.apply(op)
     return {"start": start, "ops": ops}
